@@ -20,6 +20,9 @@ var Rules = []string{
 	"struct-message-field", "struct-list-field", "struct-self", "struct-cycle", "channel-non-message", "missing-import",
 	"circular-import", "oneway-output", "oneway-channel", "input-non-message", "output-non-message", "subservice-channel",
 	"dup-method", "dup-import", "dup-option", "dup-struct-field", "dup-definition-across-files", "struct-any-field",
+	// the field rules again, in the field lists of methods (arguments, results, results after a channel)
+	"mfield-dup-name", "mfield-dup-tag", "mfield-zero-tag", "mfield-tag-out-of-range", "mfield-unknown-type",
+	"mfield-service-type", "mfield-service-element",
 }
 
 type site struct {
@@ -253,6 +256,55 @@ func Mutate(r *hx.Rand, orig *Bundle, rule string) (m *Bundle, element string, o
 		}
 		f.Options = append(f.Options, f.Options[0])
 		return b, f.Options[0].Name, true
+	case "mfield-dup-name", "mfield-dup-tag", "mfield-zero-tag", "mfield-tag-out-of-range", "mfield-unknown-type",
+		"mfield-service-type", "mfield-service-element":
+		s, ok := pick(b.sites("service", "subservice"))
+		if !ok || len(s.d.Methods) == 0 {
+			return nil, "", false
+		}
+		m := &s.d.Methods[r.Intn(len(s.d.Methods))]
+		// the list to damage: arguments, or results (plain or after a channel)
+		var list *[]Field
+		if r.Intn(2) == 0 {
+			m.InType = nil
+			list = &m.InFields
+		} else {
+			m.Oneway, m.OutType, m.HasOutFields = false, nil, true
+			if r.Intn(3) == 0 {
+				if msgName, ok := firstDef(b, "message"); ok {
+					t := Ty{Base: BaseT{Kind: BName, Name: msgName}}
+					m.ChanIn, m.ChanOut = &t, nil
+				}
+			}
+			list = &m.OutFields
+		}
+		for len(*list) < 2 {
+			k := len(*list)
+			*list = append(*list, Field{Name: []string{"mfa", "mfb"}[k], Ty: Ty{Base: BaseT{Kind: BName, Name: "int64"}}, Tag: int64(10 + k)})
+		}
+		i := r.Intn(len(*list))
+		f := (*list)[i]
+		switch rule {
+		case "mfield-dup-name":
+			f.Tag = 60000
+			*list = append(*list, f)
+		case "mfield-dup-tag":
+			f.Name = "mfDupTag"
+			*list = append(*list, f)
+		case "mfield-zero-tag":
+			(*list)[i].Tag = 0
+		case "mfield-tag-out-of-range":
+			(*list)[i].Tag = []int64{65536, 70000, 1 << 32}[r.Intn(3)]
+		case "mfield-unknown-type":
+			(*list)[i].Ty = Ty{List: r.Intn(2) == 0, Base: BaseT{Kind: BName, Name: "NoSuchType"}}
+		case "mfield-service-type", "mfield-service-element":
+			svc, ok := firstDef(b, "service")
+			if !ok {
+				svc = s.d.Name
+			}
+			(*list)[i].Ty = Ty{List: rule == "mfield-service-element", Base: BaseT{Kind: BName, Name: svc}}
+		}
+		return b, f.Name, true
 	case "channel-non-message", "oneway-output", "oneway-channel", "input-non-message", "output-non-message",
 		"subservice-channel", "dup-method":
 		s, ok := pick(b.sites("service"))
